@@ -151,10 +151,11 @@ class BaseResponse:
         headers = self._headers.items()
         bad_headers = self.bad_headers.get(self._status_code)
         if bad_headers:
-            headers = (h for h in headers if h[0] not in bad_headers)
+            # header names are case-insensitive
+            headers = (h for h in headers if h[0].title() not in bad_headers)
             need_ctype = False
         else:
-            need_ctype = 'Content-Type' not in self._headers
+            need_ctype = not any(name.title() == 'Content-Type' for name in self._headers)
         out = [
             (name, val.encode('utf8').decode('latin1'))
             for (name, vals) in headers
